@@ -474,6 +474,12 @@ def repItemAttr (r : RepItem) (n : String) : EM Val :=
   | "roman" => pure (.cstr (lowerAscii (roman (i + 1).toNat)))
   | _ => emUnsupported "repeat attribute"
 
+/-- is `n` a real attribute of the builtin type (`dir(type)`, regenerated)?  Unknown types: assume yes. -/
+def hasTypeAttr (ty : String) (n : Str) : Bool :=
+  startsWith n (lit "__") || (match Gen.builtinAttrs.find? (·.1 == ty) with
+    | some (_, l) => l.contains n.toString
+    | none => true)
+
 def attrErrMsg (v : Val) (n : Str) : Str :=
   lit "'" ++ lit v.typeName ++ lit "' object has no attribute '" ++ n ++ lit "'"
 
@@ -519,7 +525,18 @@ def lookupAttr (c : ECtx) (v : Val) (n : Str) : EM Val :=
     if startsWith n (lit "__") then emUnsupported "dunder attribute"
     else match v with
       | .none => emRaise "AttributeError" (attrErrMsg v n)
-      | _ => emUnsupported "number attribute"
+      | .cint _ => emUnsupported "number attribute"
+      | _ => if hasTypeAttr v.typeName n then emUnsupported "number attribute" else emRaise "AttributeError" (attrErrMsg v n)
+  -- no such attribute → `obj.__getitem__(name)`: sequences raise TypeError (not KeyError), which propagates
+  | .str _ | .markup _ | .cstr _ =>
+    if hasTypeAttr "str" n then emUnsupported "str method"
+    else emRaise "TypeError" (lit "string indices must be integers, not 'str'")
+  | .list _ =>
+    if hasTypeAttr "list" n then emUnsupported "list method"
+    else emRaise "TypeError" (lit "list indices must be integers or slices, not str")
+  | .tuple _ =>
+    if hasTypeAttr "tuple" n then emUnsupported "tuple method"
+    else emRaise "TypeError" (lit "tuple indices must be integers or slices, not str")
   | _ => emUnsupported "attribute access on this value"
 
 /-- `KeyError.args[0]` as text -/
@@ -542,6 +559,13 @@ def subscript (c : ECtx) (v i : Val) : EM Val :=
       if k' < 0 || k' ≥ n then
         emRaise "IndexError" (lit (match v with | .list _ => "list index out of range" | _ => "tuple index out of range"))
       else pure (vs.getD k'.toNat .none)
+    | .bool b =>
+      let k' : Nat := if b then 1 else 0
+      if k' ≥ vs.length then
+        emRaise "IndexError" (lit (match v with | .list _ => "list index out of range" | _ => "tuple index out of range"))
+      else pure (vs.getD k' .none)
+    | .str _ | .none | .list _ | .tuple _ | .dict _ =>
+      emRaise "TypeError" (lit (match v with | .list _ => "list" | _ => "tuple") ++ lit " indices must be integers or slices, not " ++ lit i.typeName)
     | _ => emUnsupported "sequence index class"
   | .str s =>
     match i with
@@ -550,6 +574,8 @@ def subscript (c : ECtx) (v i : Val) : EM Val :=
       let k' := if k < 0 then k + n else k
       if k' < 0 || k' ≥ n then emRaise "IndexError" (lit "string index out of range")
       else pure (.str [s.getD k'.toNat 0])
+    | .str _ | .none | .list _ | .tuple _ | .dict _ =>
+      emRaise "TypeError" (lit "string indices must be integers, not '" ++ lit i.typeName ++ lit "'")
     | _ => emUnsupported "string index class"
   | .obj id =>
     match c.tab[id]? with
